@@ -294,11 +294,11 @@ Definition info_ok (i : ccinfo) : Prop :=
   i_mle i <= 256 /\ (i_nlen i = 2 \/ i_nlen i = 4) /\ i_nlen i + i_cap i <= 65536 /\ len (i_fid i) <= 2.
 Lemma cc_parse_ok p2 cap i : cc_parse p2 cap = Some i -> info_ok i.
 Proof.
-  unfold cc_parse. destruct (negb _); [discriminate|].
-  destruct (_ && _).
-  - intro E. injection E as <-. unfold info_ok. cbn [i_mle i_nlen i_cap i_fid]. repeat split; try lia; apply (len_firstn_le 2).
-  - destruct (_ && _); [|discriminate]. intro E. injection E as <-. unfold info_ok. cbn [i_mle i_nlen i_cap i_fid].
-    repeat split; try lia; apply (len_firstn_le 2).
+  (* independent of how the tests of cc_parse are nested: every branch that yields Some builds the record from
+     Z.min mle 256, a constant NLEN size 2 / 4, Z.min mfs 65536 - that size, and firstn 2 of the TLV value *)
+  unfold cc_parse; try unfold cc_fields.
+  repeat match goal with |- context [if ?b then _ else _] => destruct b end; try discriminate;
+    (intro E; injection E as <-; unfold info_ok; cbn [i_mle i_nlen i_cap i_fid]; repeat split; try lia; apply (len_firstn_le 2)).
 Qed.
 
 (* the data loop: no Hang, no Crash, every READ BINARY inside [nlen_size, nlen_size + nlen), one byte or more per command *)
